@@ -133,7 +133,9 @@ def run(spec):
             import shutil
             shutil.rmtree(cwd, ignore_errors=True)
         cwd = _scratch()
+        ev.active = False
         _prepare(sp, cwd)
+        ev.active = True
         res = run_one(sp, cwd, ev)
         last = sp
     ev.active = False
